@@ -90,8 +90,14 @@ def diagonal(diagonal, transpose, to_tensor, argname_axis1="axis1", argname_axis
 
 
 def elementwise(op, to_tensor=None):
+    # A ufunc takes positional arguments beyond its inputs as output arrays and would write into them.
+    ufunc = getattr(_np, getattr(op, "__name__", "").rsplit(".", 1)[-1], None)
+    num_inputs = ufunc.nin if isinstance(ufunc, _np.ufunc) else None
+
     @use_name_of(op)
     def inner(*xs):
+        if num_inputs is not None and len(xs) != num_inputs:
+            raise ValueError(f"The operation {ufunc.__name__} expects {num_inputs} input tensor(s), but {len(xs)} were given.")
         xs = to_tensor(*xs)
         return op(*xs)
 
